@@ -11,6 +11,7 @@ import (
 	"os/exec"
 	"reflect"
 	"sort"
+	"strconv"
 	"strings"
 	"sync"
 	"testing"
@@ -258,6 +259,23 @@ func (g *gen) mutate(v interface{}, depth int) interface{} {
 	default:
 		if g.r.Intn(3) == 0 {
 			return v
+		}
+		if g.r.Intn(4) == 0 {
+			// a change of type that keeps the printed form: 17 <-> "17", true <-> "true"
+			switch x := v.(type) {
+			case string:
+				if f, err := strconv.ParseFloat(x, 64); err == nil {
+					return f
+				}
+				if x == "true" || x == "false" {
+					return x == "true"
+				}
+			case nil:
+				return "<nil>"
+			case []byte, named:
+			default:
+				return fmt.Sprint(x)
+			}
 		}
 		return g.scalar()
 	}
